@@ -1,6 +1,6 @@
 (* Proofs about the pair-count model (Model/PairCount.v). *)
 From Verif Require Import Prelude PairCount.
-From Coq Require Import Qring Setoid Morphisms.
+From Coq Require Import Qring Setoid Morphisms Sorted.
 Open Scope Q_scope.
 
 (* ------------------------------------------------------------------ *)
@@ -508,4 +508,242 @@ Proof.
       intro Hl. apply Hn. apply in_id_pairs. split; [exact Hi|right]. repeat split; auto.
     + rewrite Hprune; [reflexivity| |exact Hne].
       intro Hl. apply Hn. apply in_id_pairs. split; [exact Hi|right]. repeat split; auto. discriminate.
+Qed.
+
+(* ------------------------------------------------------------------ *)
+(* 7. separation weighting: the weighted slice sums are the weighted pair sums    *)
+(* per-pair contribution of the weighted fine bins: sum_k a_k [r_{k-1} < d <= r_k] *)
+Fixpoint fw_sum (prev : Q) (r an : list Q) (d : Q) : Q :=
+  match r, an with
+  | x :: xs, a0 :: at_ => (if in_range prev x d then a0 else 0) + fw_sum x xs at_ d
+  | _, _ => 0
+  end.
+
+Lemma fw_sum_zero_below prev r an d : ascending (prev :: r) -> d <= prev -> fw_sum prev r an d == 0.
+Proof.
+  revert prev an. induction r as [|x xs IH]; intros prev an Ha Hd; [destruct an; reflexivity|].
+  destruct an as [|a0 at_]; [reflexivity|]. destruct Ha as [Hpx Ha]. cbn [fw_sum].
+  destruct (in_range prev x d) eqn:E.
+  - apply in_range_spec in E as [E _]. exfalso. apply (Qlt_not_le _ _ E Hd).
+  - rewrite IH; [ring|exact Ha|]. eapply Qle_trans; [exact Hd|apply Qlt_le_weak; exact Hpx].
+Qed.
+
+(* at most one fine bin contains d: the sum is the weight of that bin = fine_weight *)
+Lemma fw_sum_fine prev r an d : ascending (prev :: r) -> fw_sum prev r an d == fine_weight (prev :: r) an d.
+Proof.
+  revert prev an. induction r as [|x xs IH]; intros prev an Ha.
+  - destruct an; reflexivity.
+  - destruct an as [|a0 at_]; [reflexivity|]. destruct Ha as [Hpx Ha].
+    cbn [fw_sum].
+    change (fine_weight (prev :: x :: xs) (a0 :: at_) d) with (if in_range prev x d then a0 else fine_weight (x :: xs) at_ d).
+    destruct (in_range prev x d) eqn:E.
+    + apply in_range_spec in E as [_ E]. rewrite fw_sum_zero_below; [ring|exact Ha|exact E].
+    + rewrite IH by exact Ha. ring.
+Qed.
+
+(* sum_k c_k * a_k over the bins *)
+Fixpoint dot (c a : list Q) : Q :=
+  match c, a with x :: xs, y :: ys => x * y + dot xs ys | _, _ => 0 end.
+Lemma qsum_zipmul c a : qsum (zipmul c a) == dot c a.
+Proof. revert a; induction c as [|x c IH]; intros [|y a]; simpl; try reflexivity. rewrite IH. reflexivity. Qed.
+
+Lemma qsum_map_ext (f g : Q * Q -> Q) ps : (forall p, f p == g p) -> qsum (map f ps) == qsum (map g ps).
+Proof. intro H. induction ps as [|p ps IH]; simpl; [reflexivity|]. rewrite H, IH. reflexivity. Qed.
+Lemma qsum_map_add (f g : Q * Q -> Q) ps :
+  qsum (map (fun p => f p + g p) ps) == qsum (map f ps) + qsum (map g ps).
+Proof. induction ps as [|p ps IH]; simpl; [ring|]. rewrite IH. ring. Qed.
+Lemma w_in_scale lo hi a ps :
+  qsum (map (fun p : Q * Q => snd p * (if in_range lo hi (fst p) then a else 0)) ps) == w_in lo hi ps * a.
+Proof.
+  unfold w_in. induction ps as [|p ps IH]; simpl; [ring|]. rewrite IH.
+  destruct (in_range lo hi (fst p)); ring.
+Qed.
+
+(* the per-bin sums dotted with the bin weights are the pair sum of w * weight(bin of d) *)
+Lemma dot_bins r : forall prev an ps,
+  dot (cn_bin_from prev r ps) an == qsum (map (fun p => snd p * fw_sum prev r an (fst p)) ps).
+Proof.
+  induction r as [|x xs IH]; intros prev an ps.
+  - cbn [cn_bin_from dot fw_sum]. induction ps as [|p ps IHp]; simpl; [reflexivity|]. rewrite <- IHp. ring.
+  - destruct an as [|a0 at_].
+    + cbn [cn_bin_from dot fw_sum]. induction ps as [|p ps IHp]; simpl; [reflexivity|]. rewrite <- IHp. ring.
+    + cbn [cn_bin_from dot fw_sum].
+      rewrite (qsum_map_ext _ (fun p => snd p * (if in_range prev x (fst p) then a0 else 0)
+                                       + snd p * fw_sum x xs at_ (fst p))) by (intro p; ring).
+      rewrite (qsum_map_add (fun p => snd p * (if in_range prev x (fst p) then a0 else 0))
+                            (fun p => snd p * fw_sum x xs at_ (fst p))).
+      rewrite w_in_scale, IH. reflexivity.
+Qed.
+
+Lemma fw_sum_zero_above prev r an d : Forall (fun x => x < d) r -> fw_sum prev r an d == 0.
+Proof.
+  revert prev an. induction r as [|x xs IH]; intros prev an H; [destruct an; reflexivity|].
+  destruct an as [|a0 at_]; [reflexivity|]. inversion H as [|? ? Hx Hxs]; subst. cbn [fw_sum].
+  destruct (in_range prev x d) eqn:E.
+  - apply in_range_spec in E as [_ E]. exfalso. apply (Qlt_not_le _ _ Hx E).
+  - rewrite IH by exact Hxs. ring.
+Qed.
+
+Lemma last_cons {A} (xs : list A) : forall x d, last (x :: xs) d = last xs x.
+Proof.
+  induction xs as [|y ys IH]; intros x d; [reflexivity|].
+  change (last (x :: y :: ys) d) with (last (y :: ys) d). rewrite (IH y d), (IH y x). reflexivity.
+Qed.
+
+(* splitting the grid: the sum over the bins of r1 ++ r2 *)
+Lemma fw_sum_app prev r1 r2 an d :
+  fw_sum prev (r1 ++ r2) an d ==
+  fw_sum prev r1 an d + fw_sum (last r1 prev) r2 (skipn (length r1) an) d.
+Proof.
+  revert prev an. induction r1 as [|x xs IH]; intros prev an.
+  - cbn [app fw_sum last length skipn]. destruct an; cbn [fw_sum]; ring.
+  - destruct an as [|a0 at_].
+    + cbn [app fw_sum length skipn]. destruct r2; cbn [fw_sum]; ring.
+    + cbn [app fw_sum length skipn]. rewrite IH.
+      rewrite last_cons. ring.
+Qed.
+
+Lemma ascending_ss l : ascending l -> StronglySorted Qlt l.
+Proof.
+  induction l as [|x l IH]; intro H; [constructor|].
+  destruct l as [|y l]; [constructor; constructor|]. destruct H as [Hxy H].
+  specialize (IH H). constructor; [exact IH|]. constructor; [exact Hxy|].
+  inversion IH as [|? ? _ Hall]; subst. eapply Forall_impl; [|exact Hall].
+  intros a Ha. eapply Qlt_trans; eassumption.
+Qed.
+Lemma ss_ascending l : StronglySorted Qlt l -> ascending l.
+Proof.
+  induction 1 as [|x l Hs IH Hall]; [exact I|]. destruct l as [|y l]; [exact I|].
+  split; [inversion Hall; assumption|exact IH].
+Qed.
+Lemma ss_app l1 l2 : StronglySorted Qlt (l1 ++ l2) ->
+  StronglySorted Qlt l1 /\ StronglySorted Qlt l2 /\ (forall a b, In a l1 -> In b l2 -> a < b).
+Proof.
+  induction l1 as [|x l1 IH]; simpl; intro H.
+  - repeat split; [constructor|exact H|intros a b []].
+  - inversion H as [|? ? Hs Hall]; subst. destruct (IH Hs) as [H1 [H2 H3]].
+    apply Forall_app in Hall as [Ha1 Ha2]. repeat split.
+    + constructor; assumption.
+    + exact H2.
+    + intros a b [<-|Ha] Hb; [apply (proj1 (Forall_forall _ _) Ha2 b Hb)|apply H3; assumption].
+Qed.
+Lemma ss_le_last prev l : StronglySorted Qlt (prev :: l) -> Forall (fun x => x <= last l prev) l /\ prev <= last l prev.
+Proof.
+  revert prev. induction l as [|x l IH]; intros prev H; [split; [constructor|apply Qle_refl]|].
+  inversion H as [|? ? Hs Hall]; subst. destruct (IH x Hs) as [H1 H2]. rewrite last_cons.
+  inversion Hall as [|? ? Hpx _]; subst. split.
+  - constructor; [exact H2|exact H1].
+  - eapply Qle_trans; [apply Qlt_le_weak; exact Hpx|exact H2].
+Qed.
+
+(* the window lemma: over an ascending grid prev :: p1 ++ r1 ++ r2 with lo = last of p1 (or prev)
+   and hi = last of r1, the bins of r1 carry exactly the weight of the pairs in (lo, hi] *)
+Lemma fw_sum_window prev p1 r1 r2 an d :
+  ascending (prev :: p1 ++ r1 ++ r2) -> r1 <> [] ->
+  let lo := last p1 prev in let hi := last r1 lo in
+  fw_sum lo r1 (skipn (length p1) an) d ==
+  if in_range lo hi d then fw_sum prev (p1 ++ r1 ++ r2) an d else 0.
+Proof.
+  intros Ha Hne lo hi.
+  apply ascending_ss in Ha.
+  change (prev :: p1 ++ r1 ++ r2) with ((prev :: p1) ++ r1 ++ r2) in Ha.
+  destruct (ss_app _ _ Ha) as [S1 [S23 C1]]. destruct (ss_app _ _ S23) as [S2 [S3 C2]].
+  destruct (ss_le_last prev p1 S1) as [L1 L1'].
+  assert (Slo : StronglySorted Qlt (lo :: r1)).
+  { constructor; [exact S2|]. apply Forall_forall. intros b Hb. apply C1; [|apply in_or_app; left; exact Hb].
+    unfold lo. destruct p1 as [|q p1']; [left; reflexivity|]. right. rewrite last_cons.
+    clear -p1'. revert q. induction p1' as [|y ys IH]; intros q; [left; reflexivity|]. right. rewrite last_cons. apply IH. }
+  destruct (ss_le_last lo r1 Slo) as [L2 L2']. fold hi in L2, L2'.
+  assert (Shi : StronglySorted Qlt (hi :: r2)).
+  { constructor; [exact S3|]. apply Forall_forall. intros b Hb. apply C2; [|exact Hb].
+    unfold hi. destruct r1 as [|q r1']; [congruence|]. rewrite last_cons.
+    clear. revert q. induction r1' as [|y ys IH]; intros q; [left; reflexivity|]. right. rewrite last_cons. apply IH. }
+  destruct (in_range lo hi d) eqn:E.
+  - apply in_range_spec in E as [E1 E2].
+    rewrite (fw_sum_app prev p1 (r1 ++ r2)). fold lo. rewrite (fw_sum_app lo r1 r2). fold hi.
+    rewrite (fw_sum_zero_above prev p1).
+    + rewrite (fw_sum_zero_below hi r2); [ring|apply ss_ascending; exact Shi|exact E2].
+    + eapply Forall_impl; [|exact L1]. intros a Hale. eapply Qle_lt_trans; [exact Hale|exact E1].
+  - destruct (Qlt_le_dec lo d) as [Hlo|Hlo].
+    + assert (Hhi : hi < d).
+      { apply Qnot_le_lt. intro C. assert (T : in_range lo hi d = true) by (apply in_range_spec; split; assumption). congruence. }
+      apply fw_sum_zero_above. eapply Forall_impl; [|exact L2]. intros a Hale. eapply Qle_lt_trans; [exact Hale|exact Hhi].
+    + apply fw_sum_zero_below; [apply ss_ascending; exact Slo|exact Hlo].
+Qed.
+
+Lemma skipn_zipmul n : forall c a, skipn n (zipmul c a) = zipmul (skipn n c) (skipn n a).
+Proof.
+  induction n as [|n IH]; intros c a; [reflexivity|].
+  destruct c as [|x c]; [destruct a; reflexivity|]. destruct a as [|y a]; [simpl; destruct (skipn n c); reflexivity|].
+  simpl. apply IH.
+Qed.
+Lemma firstn_zipmul n : forall c a, firstn n (zipmul c a) = zipmul (firstn n c) (firstn n a).
+Proof.
+  induction n as [|n IH]; intros c a; [reflexivity|].
+  destruct c as [|x c]; [reflexivity|]. destruct a as [|y a]; [reflexivity|]. simpl. f_equal. apply IH.
+Qed.
+Lemma skipn_cn_bin_from_app p1 : forall prev rest ps,
+  skipn (length p1) (cn_bin_from prev (p1 ++ rest) ps) = cn_bin_from (last p1 prev) rest ps.
+Proof.
+  induction p1 as [|x p1 IH]; intros prev rest ps; [reflexivity|].
+  cbn [length app cn_bin_from skipn]. rewrite IH, last_cons. reflexivity.
+Qed.
+Lemma firstn_cn_bin_from_app r1 : forall lo r2 ps,
+  firstn (length r1) (cn_bin_from lo (r1 ++ r2) ps) = cn_bin_from lo r1 ps.
+Proof.
+  induction r1 as [|x r1 IH]; intros lo r2 ps; [reflexivity|].
+  cbn [length app cn_bin_from firstn]. rewrite IH. reflexivity.
+Qed.
+Lemma cn_bin_from_length prev r ps : length (cn_bin_from prev r ps) = length r.
+Proof. revert prev; induction r; intros; simpl; auto. Qed.
+
+Lemma dot_firstn c : forall a, dot c (firstn (length c) a) == dot c a.
+Proof.
+  induction c as [|x c IH]; intros a; [reflexivity|]. destruct a as [|y a]; [reflexivity|].
+  cbn [length firstn dot]. rewrite IH. reflexivity.
+Qed.
+
+(* AngularTree.count WITH separation weighting: over an ascending grid prev :: p1 ++ r1 ++ r2 the
+   slice of the weighted per-bin counts between the edges lo = last p1 and hi = last r1 is the
+   sum over the pairs in (lo, hi] of  w * (weight of the fine bin containing the pair), for
+   every list of bin weights `an` (the code uses alpha_k / sum alpha at the logarithmic bin centres) *)
+Theorem weighted_count_exact prev p1 r1 r2 an ps :
+  ascending (prev :: p1 ++ r1 ++ r2) -> r1 <> [] ->
+  let lo := last p1 prev in let hi := last r1 lo in
+  slice_sum (zipmul (cn_bin_from prev (p1 ++ r1 ++ r2) ps) an) (length p1) (length p1 + length r1)
+  == qsum (map (fun p => if in_range lo hi (fst p)
+                         then snd p * fine_weight (prev :: p1 ++ r1 ++ r2) an (fst p) else 0) ps).
+Proof.
+  intros Ha Hne. cbv zeta. unfold slice_sum.
+  replace (length p1 + length r1 - length p1)%nat with (length r1) by lia.
+  rewrite skipn_zipmul, firstn_zipmul, skipn_cn_bin_from_app.
+  rewrite firstn_cn_bin_from_app, qsum_zipmul.
+  pose proof (dot_firstn (cn_bin_from (last p1 prev) r1 ps) (skipn (length p1) an)) as DF.
+  rewrite cn_bin_from_length in DF. rewrite DF, dot_bins.
+  apply qsum_map_ext. intros [d w]. cbn [fst snd].
+  pose proof (fw_sum_window prev p1 r1 r2 an d Ha Hne) as W. cbv zeta in W. rewrite W.
+  destruct (in_range (last p1 prev) (last r1 (last p1 prev)) d); [|ring].
+  rewrite (fw_sum_fine prev (p1 ++ r1 ++ r2) an d Ha). reflexivity.
+Qed.
+
+Lemma zipmul_Forall2 c c' an : Forall2 Qeq c c' -> Forall2 Qeq (zipmul c an) (zipmul c' an).
+Proof.
+  intro H. revert an. induction H as [|u v c c' Huv Hcc IH]; intros [|z an]; simpl; constructor.
+  - rewrite Huv. reflexivity.
+  - apply IH.
+Qed.
+
+(* ... and for BOTH dispatch modes of the code (cumulative counts + diff, per-bin counts + tail) *)
+Corollary weighted_dispatch_exact cum prev p1 r1 r2 an ps :
+  ascending (prev :: p1 ++ r1 ++ r2) -> r1 <> [] ->
+  let grid := prev :: p1 ++ r1 ++ r2 in
+  let lo := last p1 prev in let hi := last r1 lo in
+  slice_sum (zipmul (dispatch cum (if cum then cn_cum grid ps else cn_bin grid ps)) an)
+            (length p1) (length p1 + length r1)
+  == qsum (map (fun p => if in_range lo hi (fst p) then snd p * fine_weight grid an (fst p) else 0) ps).
+Proof.
+  intros Ha Hne. cbv zeta.
+  rewrite <- (weighted_count_exact prev p1 r1 r2 an ps Ha Hne). unfold slice_sum.
+  apply qsum_Forall2, Forall2_firstn, Forall2_skipn, zipmul_Forall2.
+  apply (dispatch_bins cum (prev :: p1 ++ r1 ++ r2) ps Ha).
 Qed.
